@@ -1,5 +1,6 @@
 import PaletteModel.Proto
 import PaletteModel.Soa
+import PaletteModel.SoaNested
 import PaletteModel.Gen.Soa
 
 /-!
@@ -7,11 +8,12 @@ import PaletteModel.Gen.Soa
   One line is one whole history from the empty collection (self-contained, replays exactly).
   history  := op*            op := push ROW | pop | extend N ROW^N | collect N ROW^N | new CAP | clear
                                  | drain RNG SCRIPT | get I | getr RNG SCRIPT | getm I ROW | getmr RNG SCRIPT
-                                 | iter SCRIPT | iterm SCRIPT | rev | into | len        (each op may carry `@form`)
+                                 | iter SCRIPT | iterm SCRIPT | rev | into | len | forget RNG SCRIPT   (each op may carry `@form`)
   RNG      := r A B | f A | t B | u | i A B | ti B
-  SCRIPT   := M step^M       step := n | b | l | N ROW | B ROW
+  SCRIPT   := M step^M       step := n | b | l | h | c | N ROW | B ROW     (`c` = `count()`, consumes the iterator: only as the
+                                                                            last step, and never before a `forget`)
   ROW      := k values in column order hue, elements.., alpha (floats as bit patterns)
-  observations := per op:  u | S ROW | Z | T M (S ROW | Z | # LEN)^M | N | P | Ln ITERLEN LEN^k
+  observations := per op:  u | S ROW | Z | T M (S ROW | Z | # LEN | H LO (HI | -) | C COUNT)^M | N | P | Ln ITERLEN LEN^k
   `soatypes | <names..> |` : the harness' list of covered types, compared with the extracted table.
 -/
 namespace Soa
@@ -53,14 +55,25 @@ def takeSteps (k : Nat) : Nat → List String → Option (List (Step Nat k) × L
       | "n" :: ts => some (Step.next none, ts)
       | "b" :: ts => some (Step.nextBack none, ts)
       | "l" :: ts => some (Step.len, ts)
+      | "h" :: ts => some (Step.sizeHint, ts)
+      | "c" :: ts => some (Step.count, ts)
       | "N" :: ts => (takeRow k ts).map fun (r, ts) => (Step.next (some r), ts)
       | "B" :: ts => (takeRow k ts).map fun (r, ts) => (Step.nextBack (some r), ts)
       | _ => none)
     let (ss, ts) ← takeSteps k n ts
     pure (s :: ss, ts)
 
+def isCount {k : Nat} : Step Nat k → Bool
+  | .count => true
+  | _ => false
+
+/-- `count()` consumes the iterator: a script is executable Rust only if `count` is its last step -/
+def countLast {k : Nat} (sc : List (Step Nat k)) : Bool := !(sc.dropLast.any isCount)
+
 def takeScript (k : Nat) : List String → Option (List (Step Nat k) × List String)
-  | m :: ts => do takeSteps k (← m.toNat?) ts
+  | m :: ts => do
+    let (sc, ts) ← takeSteps k (← m.toNat?) ts
+    if countLast sc then pure (sc, ts) else none
   | _ => none
 
 def opName (tok : String) : String := (tok.splitOn "@").headD ""
@@ -95,6 +108,10 @@ def takeOp (k : Nat) : List String → Option (Op Nat k × List String)
     | "rev" => some (.rev, ts)
     | "into" => some (.intoIter, ts)
     | "len" => some (.len, ts)
+    | "forget" => do
+      let (r, ts) ← takeRng ts; let (sc, ts) ← takeScript k ts
+      -- after `count()` there is no `Drain` left to forget
+      if sc.any isCount then none else pure (.forgetDrain r sc, ts)
     | _ => none
 
 /-- returns the operations and the op tokens (with their `@form`) for the branch statistics -/
@@ -115,6 +132,8 @@ def showItem (ty : String) {k : Nat} : Option (Row Nat k) → List String
 def showSObs (ty : String) {k : Nat} : SObs Nat k → List String
   | .item o => showItem ty o
   | .len n => ["#", toString n]
+  | .hint lo hi => ["H", toString lo, match hi with | some h => toString h | none => "-"]
+  | .count n => ["C", toString n]
 
 def showObs (ty : String) {k : Nat} : Obs Nat k → List String
   | .unit => ["u"]
@@ -143,6 +162,18 @@ def typeOk (name : String) (hue : Bool) (nelem : Nat) : Bool :=
     | none => false
   ok Gen.Soa.methods && ok Gen.Soa.traits && Gen.Soa.hueFirstAlphaLast
 
+/-- `+alpha` configurations: the same history through the nested model (`Alpha { color: <k0 columns>, alpha }`,
+    `SoaNested.lean`); its observations must be the implementation's and its final state the flat model's -/
+def nestedCheck (ty : String) (k0 : Nat) (inp outp : List String) : Option String :=
+  match takeOps (k0 + 1) inp [] [] with
+  | none => some "unparsable history"
+  | some (ops, _) =>
+    let (nN, obsN) := nrun (emptyNest Nat k0) ops
+    let tN := (obsN.map (showObs ty)).flatten
+    if tN != outp then some ("nested model vs impl: " ++ firstDiff tN outp 0)
+    else if nN.flat.toList != (run (emptyCols Nat (k0 + 1)) ops).1.toList then some "final nested state is not the flat model's state"
+    else none
+
 def handle (cfg inp outp : List String) : Verdict :=
   match cfg with
   | [name, ty, hue, nelem, alpha] =>
@@ -160,6 +191,10 @@ def handle (cfg inp outp : List String) : Verdict :=
         if tM != outp then .disagree ("model vs impl: " ++ firstDiff tM outp 0)
         else if tR != outp then .disagree ("reference vs impl: " ++ firstDiff tR outp 0)
         else if sM.toList != (colsOf sR).toList then .disagree "final model state is not the transposed reference state"
+        else if a == 1 then
+          match nestedCheck ty (h + ne) inp outp with
+          | some msg => .disagree msg
+          | none => .agree ("nested" :: names ++ obsM.filterMap obsTag |>.eraseDups)
         else .agree (names ++ obsM.filterMap obsTag |>.eraseDups)
     | _, _, _ => .bad "malformed soa config"
   | _ => .bad "malformed soa line"
